@@ -44,6 +44,7 @@ type HarnessSpec struct {
 	AllocLimit  int               `json:"alloc_limit,omitempty"`
 	ReplaySecs  int               `json:"replay_timeout_s,omitempty"`
 	MaxConc     int               `json:"max_concretize,omitempty"`
+	Solver      string            `json:"solver,omitempty"`
 }
 
 type PropSpec struct {
@@ -261,6 +262,7 @@ type harnessEvidence struct {
 	Sat          int            `json:"sat"`
 	Unsat        int            `json:"unsat"`
 	Unknown      int            `json:"unknown"`
+	Solver       string         `json:"deciding_solver"`
 	SolverS      float64        `json:"solver_s"`
 	SlowestS     float64        `json:"slowest_query_s"`
 	WallS        float64        `json:"wall_s"`
@@ -397,6 +399,12 @@ func cmdCheck(args []string) {
 		if h.MaxConc > 0 {
 			cfg.MaxConcretize = h.MaxConc
 		}
+		switch h.Solver {
+		case "cvc5":
+			cfg.Solver = CVC5
+		case "z3":
+			cfg.Solver = Z3
+		}
 		if tier == "thorough" {
 			cfg.OneShotMs = 120_000
 		}
@@ -408,7 +416,7 @@ func cmdCheck(args []string) {
 		}
 		ev := harnessEvidence{Harness: h.Name, Pkg: h.Pkg, Kernel: h.Kernel, Params: cfg.Params, Bounds: h.Bounds, Outside: h.Outside,
 			Paths: res.Paths, ByStatus: res.ByStatus, Forks: res.Forks, Steps: res.Steps, Queries: res.Queries, Sat: res.Sat, Unsat: res.Unsat,
-			Unknown: res.Unknown, SolverS: res.SolverS, SlowestS: res.SlowestS, WallS: res.WallS, Reach: res.Reach, Functions: res.Functions,
+			Unknown: res.Unknown, Solver: res.Solver, SolverS: res.SolverS, SlowestS: res.SlowestS, WallS: res.WallS, Reach: res.Reach, Functions: res.Functions,
 			Intrinsics: res.Intrinsics, Stubs: res.Stubs, Inconclusive: res.Inconclusive, Budget: cfg.Budget}
 		totalPaths += res.Paths
 		totalForks += res.Forks
